@@ -125,15 +125,42 @@ package mqttproxy
 //     does on a write error: it is history, nothing may change (in particular
 //     not the stored session of a later connection with the same id).
 //
+// Third wave (two more places for the late SUBSCRIBE):
+//   * inside the write loop's closeAndDelSession, between its clean-up under the
+//     broker lock and the Client.close() that ends it: the real function runs in
+//     a goroutine of its own while the harness holds the client's (real) mutex,
+//     which stops it exactly at that Client.close(); the SUBSCRIBE is processed,
+//     the mutex released, the goroutine awaited - all without a gate.
+//   * a closed connection that lingers in Broker.clients (Client.close() only,
+//     what reconnectWatcher does to clients whose session vanished) while a new
+//     connection of the same id arrives. The successor is made by the REAL
+//     Broker.handleConn over a fake socket (one CONNECT packet, then silence),
+//     because what handleConn does to its predecessor is the point; it issues no
+//     packets and hangs up at the end of the same disconnect operation (its
+//     read loop runs the real teardown). In between the superseded connection's
+//     read loop processes one SUBSCRIBE and then tears down.
+//     Reference: the successor holds the lingering connection's subscriptions
+//     exactly if both sessions are cleanSession=false ones (same rule as for a
+//     stored session); the superseded connection's SUBSCRIBE is optional while
+//     the id is connected (the statement does not say whose it is) and must be
+//     gone after the successor left; the superseded teardown changes nothing.
+//     Not generated: a late UNSUBSCRIBE of the superseded connection, packets
+//     of the successor (take-over histories in general stay C16's).
+//
 // The trie is additionally walked after every mutating operation and compared
 // with the reference; a difference is never a verdict by itself: it only
 // selects witness topics that are then published, and the routing oracle
 // decides (fallback class C14.state if the difference disappeared meanwhile).
 
 import (
+	"bytes"
 	"fmt"
+	"io"
+	"net"
+	"runtime"
 	"sort"
 	"strings"
+	"sync/atomic"
 	"testing"
 	"time"
 
@@ -163,6 +190,13 @@ type c14Op struct {
 	Win  bool     `json:"win,omitempty"`  // B: other tasks may run between Client.close() and the teardown
 	Late *c14Late `json:"late,omitempty"` // one more packet the read loop still processes between the two halves (it only looks at c.done before it blocks in ReadPacket)
 	N    int      `json:"n,omitempty"`    // late: which of the id's earlier, torn-down connections runs its teardown once more
+	// third wave
+	Mid  bool     `json:"mid,omitempty"`  // W with a late SUBSCRIBE: it is processed INSIDE the write loop's closeAndDelSession, after the clean-up under the broker lock and before Client.close()
+	Succ *c14Succ `json:"succ,omitempty"` // B with a window: while the closed connection lingers, a new connection of the same id comes (through the real Broker.handleConn) and, after the old one's late SUBSCRIBE and teardown, goes
+}
+
+type c14Succ struct {
+	P bool `json:"p,omitempty"` // cleanSession=false
 }
 
 type c14Late struct {
@@ -430,6 +464,15 @@ func c14Gen(rng *sim.Rand, tier string) interface{} {
 						l.K = "unsub"
 					}
 					op.Late = l
+				}
+				if op.W && op.Late != nil && op.Late.K == "sub" && rng.Bool(0.5) {
+					op.Mid = true
+				}
+				if op.B && op.Win && rng.Bool(0.45) {
+					op.Succ = &c14Succ{P: t.Persist != rng.Bool(0.3)}
+					if op.Late != nil {
+						op.Late.K = "sub"
+					}
 				}
 				if rng.Bool(0.75) {
 					// reconnect explicitly (otherwise the next sub/unsub connects with the task's default)
@@ -818,6 +861,42 @@ func c14Witness(f string) []string {
 
 // ---- executor ---------------------------------------------------------------
 
+// c14FakeConn: the socket of a connection that is made by the real
+// Broker.handleConn: it delivers one CONNECT packet, swallows what is written,
+// and then keeps the read loop waiting until the harness hangs up.
+type c14FakeConn struct {
+	in     []byte
+	waits  bool
+	ready  chan struct{} // closed when the read loop waits for its first packet
+	hangup chan struct{}
+}
+
+func (f *c14FakeConn) Read(p []byte) (int, error) {
+	if len(f.in) > 0 {
+		n := copy(p, f.in)
+		f.in = f.in[n:]
+		return n, nil
+	}
+	if !f.waits {
+		f.waits = true
+		close(f.ready)
+	}
+	<-f.hangup
+	return 0, io.EOF
+}
+func (f *c14FakeConn) Write(p []byte) (int, error)        { return len(p), nil }
+func (f *c14FakeConn) Close() error                       { return nil }
+func (f *c14FakeConn) LocalAddr() net.Addr                { return c14Addr("broker") }
+func (f *c14FakeConn) RemoteAddr() net.Addr               { return c14Addr("client") }
+func (f *c14FakeConn) SetDeadline(t time.Time) error      { return nil }
+func (f *c14FakeConn) SetReadDeadline(t time.Time) error  { return nil }
+func (f *c14FakeConn) SetWriteDeadline(t time.Time) error { return nil }
+
+type c14Addr string
+
+func (a c14Addr) Network() string { return "fake" }
+func (a c14Addr) String() string  { return string(a) }
+
 type c14Rec struct {
 	Task     string
 	What     string
@@ -851,6 +930,10 @@ func c14Exec(r *sim.Run, sci interface{}) {
 		nops += len(t.Ops) + 2
 	}
 	b := &Broker{egName: "eg", name: "mqtt", clients: map[string]*Client{}}
+	// what Broker.handleConn needs besides (successor connections are made by it)
+	b.spec = &Spec{EGName: "eg", Name: "mqtt"}
+	b.pipelines = map[PacketType]string{}
+	b.connectionLimiter = newLimiter(nil)
 	b.topicMgr = newTopicManager(cache)
 	b.sessMgr = newSessionManager(b, newStorage(nil)) // real doStore goroutine: sessions are persisted to the mock storage
 	defer b.sessMgr.close()
@@ -1572,15 +1655,77 @@ func c14Exec(r *sim.Run, sci interface{}) {
 			afterMutation(id)
 			return
 		}
+		// settle: the disconnect of the id is complete. Whatever a late SUBSCRIBE
+		// named and is still in the tree now is that SUBSCRIBE's residue (this decides
+		// the class name, routing decides the verdict)
+		settle := func() (had int) {
+			delete(limbo, id)
+			delete(cleaned, id)
+			had = ref.disconnectKind(id, left, "late")
+			for _, f := range c14Keys(lateSubs[id]) {
+				if !left(f) {
+					continue
+				}
+				z := ref.zomb[id][f]
+				if z == nil {
+					z = &c14Zombie{kind: "late", qos: map[byte]bool{}}
+					ref.zomb[id][f] = z
+				}
+				z.kind = "late"
+				for q := range lateSubs[id][f] {
+					z.qos[q] = true
+				}
+			}
+			delete(lateSubs, id)
+			return
+		}
 		// first half
+		lateDone := false
 		inv := r.Seq()
 		if !call(kind+" (first half of a disconnect)", func() {
-			switch kind {
-			case "broker close":
-				cn.c.close()
-			case "admin session delete":
+			switch {
+			case kind == "broker close":
+				cn.c.close() // what reconnectWatcher, a pipeline's Disconnect or a take-over do: the connection stays registered
+			case kind == "admin session delete":
 				b.sessMgr.store.delete(sessionStoreKey(id))
 				b.deleteSession(id)
+				cleaned[id] = kind
+			case op.Mid && op.Late != nil && op.Late.K == "sub":
+				// the write loop runs the real closeAndDelSession in a goroutine of its
+				// own; holding the client's mutex stops it at the Client.close() that
+				// ends it, i.e. after the clean-up under the broker lock: that is where
+				// the read loop gets to process its SUBSCRIBE. No gate while the (real)
+				// mutex is held.
+				limbo[id] = true
+				cleaned[id] = "the clean-up of the write loop's teardown, before its Client.close()"
+				wdone := make(chan struct{})
+				cn.c.Lock()
+				go func() {
+					defer close(wdone)
+					defer func() {
+						if p := recover(); p != nil {
+							violate("C14.panic", "closeAndDelSession (write loop) panicked: %v", p)
+						}
+					}()
+					cn.c.closeAndDelSession()
+				}()
+				for i := 0; i < 1000 && atomic.LoadInt32(&cn.c.cleanFlag) == 0; i++ {
+					runtime.Gosched()
+				}
+				if atomic.LoadInt32(&cn.c.cleanFlag) == 1 && !cn.c.disconnected() {
+					r.Probe("disc.late_subscribe_between_cleanup_and_close_of_write_loop_teardown")
+					lateDone = true
+					func() {
+						defer func() {
+							if p := recover(); p != nil {
+								violate("C14.panic", "late SUBSCRIBE panicked: %v", p)
+							}
+						}()
+						doSub(id, op.Late.Subs)
+					}()
+				}
+				cn.c.Unlock()
+				<-wdone
 				cleaned[id] = kind
 			default:
 				cn.c.closeAndDelSession()
@@ -1602,7 +1747,157 @@ func c14Exec(r *sim.Run, sci interface{}) {
 		if fatal || r.Aborted() {
 			return
 		}
-		if l := op.Late; l != nil {
+		if op.Succ != nil && kind == "broker close" {
+			// a new connection of the same id arrives while the closed one lingers
+			cp := packets.NewControlPacket(packets.Connect).(*packets.ConnectPacket)
+			cp.ProtocolName, cp.ProtocolVersion = "MQTT", 4
+			cp.ClientIdentifier = id
+			cp.CleanSession = !op.Succ.P
+			var buf bytes.Buffer
+			if err := cp.Write(&buf); err != nil {
+				return
+			}
+			fc := &c14FakeConn{in: buf.Bytes(), ready: make(chan struct{}), hangup: make(chan struct{})}
+			hdone := make(chan struct{})
+			inv := r.Seq()
+			go func() {
+				defer close(hdone)
+				defer func() {
+					if p := recover(); p != nil {
+						violate("C14.panic", "Broker.handleConn panicked: %v", p)
+					}
+				}()
+				b.handleConn(fc)
+			}()
+			select {
+			case <-fc.ready:
+			case <-hdone:
+			}
+			succ := b.getClient(id)
+			if fatal {
+				return
+			}
+			if succ != nil && succ != cn.c && succ.session != nil {
+				ret := r.Seq()
+				had := settle() // the old connection's subscriptions live on exactly if both sessions are cleanSession=false ones
+				conns[id] = &c14Conn{succ, succ.session}
+				restored, _, _ := ref.connect(id, op.Succ.P, false)
+				r.Fault("reconnect_while_closed_connection_lingers")
+				if restored > 0 {
+					r.Probe("succ.inherited_subscriptions_of_lingering_connection")
+				}
+				if had > 0 && restored == 0 {
+					r.Probe("succ.discarded_subscriptions_of_lingering_connection")
+				}
+				mode := "clean"
+				if op.Succ.P {
+					mode = "persist"
+				}
+				hist = append(hist, c14Rec{id, "successor-conn(" + mode + ")", inv, ret, fmt.Sprintf("restored %d", restored)})
+				r.Eventf("%s successor-conn %s -> restored %d (%d,%d)", id, mode, restored, inv, ret)
+				afterMutation(id)
+				if fatal {
+					return
+				}
+				r.Sleep(0)
+				if fatal || r.Aborted() {
+					return
+				}
+				// the superseded connection's read loop still handles one SUBSCRIBE
+				if l := op.Late; l != nil && l.K == "sub" {
+					if fs, qs := clean(l.Subs); len(fs) > 0 {
+						pkt := packets.NewControlPacket(packets.Subscribe).(*packets.SubscribePacket)
+						mid++
+						pkt.MessageID = mid
+						pkt.Topics = fs
+						pkt.Qoss = qs
+						inv := r.Seq()
+						if !call("processSubscribe (superseded connection)", func() { processSubscribe(cn.c, pkt) }) {
+							return
+						}
+						ret := r.Seq()
+						suback, _ := drain(cn.c)
+						out := "refused"
+						if suback != nil {
+							out = "suback(never written)"
+							r.Probe("succ.late_subscribe_of_superseded_connection_was_acknowledged")
+						}
+						r.Probe("succ.late_subscribe_of_superseded_connection")
+						r.Fault("subscribe_processed_after_cleanup")
+						hist = append(hist, c14Rec{id, "superseded-sub" + render(fs, qs), inv, ret, out})
+						r.Eventf("%s superseded-sub %s -> %s (%d,%d)", id, render(fs, qs), out, inv, ret)
+						for i, f := range fs {
+							if !c14Valid(f) {
+								if suback != nil && (i >= len(suback.ReturnCodes) || suback.ReturnCodes[i] != 0x80) {
+									violate("C14.malformed-accepted", "%s: SUBSCRIBE %s contains malformed filter(s) and was acknowledged as successful (return codes %v)", id, render(fs, qs), suback.ReturnCodes)
+									return
+								}
+								continue
+							}
+							// the statement does not say whose it is: optional while the id is connected, gone afterwards
+							ref.maybeSubscribe(id, f, qs[i])
+							if lateSubs[id] == nil {
+								lateSubs[id] = map[string]map[byte]bool{}
+							}
+							if lateSubs[id][f] == nil {
+								lateSubs[id][f] = map[byte]bool{}
+							}
+							lateSubs[id][f][qs[i]] = true
+						}
+						lateWhy[id] = "a newer connection had replaced its closed, lingering connection"
+						afterMutation(id)
+						if fatal {
+							return
+						}
+						r.Sleep(0)
+						if fatal || r.Aborted() {
+							return
+						}
+					}
+				}
+				// the superseded connection's teardown: the id is not its any more
+				inv = r.Seq()
+				if !call("closeAndDelSession (superseded connection)", func() {
+					cn.c.closeAndDelSession()
+					b.removeClient(id)
+				}) {
+					return
+				}
+				ret = r.Seq()
+				olds[id] = append(olds[id], cn.c)
+				hist = append(hist, c14Rec{id, "superseded-teardown", inv, ret, "-"})
+				r.Eventf("%s superseded-teardown (%d,%d)", id, inv, ret)
+				afterMutation(id)
+				if fatal {
+					return
+				}
+				r.Sleep(0)
+				if fatal || r.Aborted() {
+					return
+				}
+				// the successor hangs up: its read loop runs the real teardown
+				inv = r.Seq()
+				close(fc.hangup)
+				<-hdone
+				if fatal {
+					return
+				}
+				had = settle()
+				ret = r.Seq()
+				delete(conns, id)
+				olds[id] = append(olds[id], succ)
+				if ref.persist[id] && had > 0 {
+					r.Probe("disc.persistent_session_keeps_subscriptions")
+				}
+				account(had, "successor-disc", inv, ret)
+				afterMutation(id)
+				return
+			}
+			// the connection attempt was refused: go on as if nobody had come
+			close(fc.hangup)
+			<-hdone
+		}
+		if l := op.Late; l != nil && !lateDone {
 			tag := strings.ReplaceAll(kind, " ", "_")
 			if l.K == "sub" {
 				r.Probe("disc.late_subscribe_after_" + tag)
@@ -1624,26 +1919,7 @@ func c14Exec(r *sim.Run, sci interface{}) {
 		had := 0
 		if !call("closeAndDelSession (teardown after "+kind+")", func() {
 			cn.c.closeAndDelSession()
-			delete(limbo, id)
-			delete(cleaned, id)
-			had = ref.disconnectKind(id, left, "late")
-			// attribution: whatever a late SUBSCRIBE named and is still in the tree now
-			// is that SUBSCRIBE's residue (it decides the class name, routing decides the verdict)
-			for _, f := range c14Keys(lateSubs[id]) {
-				if !left(f) {
-					continue
-				}
-				z := ref.zomb[id][f]
-				if z == nil {
-					z = &c14Zombie{kind: "late", qos: map[byte]bool{}}
-					ref.zomb[id][f] = z
-				}
-				z.kind = "late"
-				for q := range lateSubs[id][f] {
-					z.qos[q] = true
-				}
-			}
-			delete(lateSubs, id)
+			had = settle()
 			if kind == "admin session delete" {
 				// the statement does not know admin deletions: whether the session can be resumed is left open
 				for f := range ref.stored[id] {
@@ -1841,12 +2117,12 @@ func TestVerifC14(t *testing.T) {
 		New:      func() interface{} { return &c14Scenario{} },
 		Exec:     c14Exec,
 		MaxSteps: 20000,
-		Rule: "scenario = LRU size from {1,2,4,64} + 2-5 client tasks (subscribe/unsubscribe lists, re-subscribe with other QoS, unsubscribe of filters not held, malformed filters, disconnect by plain teardown / after a broker-initiated close / after an admin deletion of the session / after the write loop's own clean-up, the last three optionally with a window in which one more SUBSCRIBE or UNSUBSCRIBE is processed, a repeated teardown of an earlier connection, reconnect with cleanSession true/false incl. restore of the stored session's subscriptions) and 1-2 publisher tasks over filters/topics of <=4-5 (11%: <=9) levels from {a,b,ab,'',+,#} plus, in 30% of the scenarios, 1-3 level strings from a list of 48 unusual ones (blanks, YAML-special text, upper case, CJK, emoji, 130+ bytes, '$' prefixes), <=60 operations; " +
+		Rule: "scenario = LRU size from {1,2,4,64} + 2-5 client tasks (subscribe/unsubscribe lists, re-subscribe with other QoS, unsubscribe of filters not held, malformed filters, disconnect by plain teardown / after a broker-initiated close / after an admin deletion of the session / after the write loop's own clean-up, the last three optionally with a window in which one more SUBSCRIBE or UNSUBSCRIBE is processed (also inside the write loop's closeAndDelSession, before its Client.close()) and, after a broker-initiated close, in which a successor connection made by the real Broker.handleConn comes and goes, a repeated teardown of an earlier connection, reconnect with cleanSession true/false incl. restore of the stored session's subscriptions) and 1-2 publisher tasks over filters/topics of <=4-5 (11%: <=9) levels from {a,b,ab,'',+,#} plus, in 30% of the scenarios, 1-3 level strings from a list of 48 unusual ones (blanks, YAML-special text, upper case, CJK, emoji, 130+ bytes, '$' prefixes), <=60 operations; " +
 			"non-trivial = some publish was routed through a wildcard filter and some publish happened after a live subscription had been removed; distinct = distinct (cache size, linearised operation history with results) signatures",
 		Real: []string{"pkg/object/mqttproxy/topic.go (TopicManager: subscribe, unsubscribe, findSubscribers, insert, remove, splitTopic, level LRU)",
 			"pkg/object/mqttproxy/client.go (processSubscribe, processUnsubscribe, Client.closeAndDelSession, close)",
-			"pkg/object/mqttproxy/session.go + session_manager.go (Session.subscribe/unsubscribe/allSubscribes/updateEGName/store, SessionManager.newSessionFromConn/newSessionFromYaml/get/doStore/delLocal/delDB), Broker.setSession/removeClient, storage.go mockStorage"},
-		Stub: []string{"no sockets: the harness performs handleConn's connection steps and readLoop's teardown steps with the real functions and calls the packet handlers directly (no readLoop/writeLoop, no pipelines)",
+			"pkg/object/mqttproxy/session.go + session_manager.go (Session.subscribe/unsubscribe/allSubscribes/updateEGName/store, SessionManager.newSessionFromConn/newSessionFromYaml/get/doStore/delLocal/delDB), Broker.setSession/removeClient/deleteSession, Broker.handleConn + Client.readLoop/writeLoop for successor connections, storage.go mockStorage"},
+		Stub: []string{"no sockets (except a fake one for successor connections, which go through the real Broker.handleConn/readLoop/writeLoop): the harness performs handleConn's connection steps and readLoop's teardown steps with the real functions and calls the packet handlers directly (no readLoop/writeLoop, no pipelines)",
 			"no sync primitive is replaced: operations are atomic between the task-level gates in front of them (see header); map ranges of topic.go/session.go iterate in a tape-determined order",
 			"storage = the repo's mockStorage"},
 		Assumptions: []string{
@@ -1857,6 +2133,7 @@ func TestVerifC14(t *testing.T) {
 			"entries of a cleanSession=false session touched in such a window, and the whole session after an admin deletion, may or may not come back at the next cleanSession=false connect",
 			"a stored cleanSession=false session must come back whatever (control-character-free) text its filters consist of (C14.restore-lost.stored-session-undecodable otherwise)",
 			"a repeated teardown of a connection that was torn down earlier must not change anything",
+			"a connection of an id whose closed predecessor still lingers holds the predecessor's subscriptions exactly if both sessions are cleanSession=false; a SUBSCRIBE still processed by the superseded connection is optional while the id is connected and must be gone once the successor has left",
 			"when several subscriptions of a client match, the QoS of any of them is accepted",
 			"a client with a cleanSession=false session is not in the routing set while it is away; after its cleanSession=false reconnect it holds the stored subscriptions with the QoS of the last subscribe of each filter",
 			"not generated: take-over of a still connected id (C16)",
